@@ -36,14 +36,15 @@ def one(name, checks):
 
 
 def main():
-    idx = [m["name"] for m in json.load(open(os.path.join(VERIF, "benign", "index.json")))]
+    meta = {m["name"]: m for m in json.load(open(os.path.join(VERIF, "benign", "index.json")))}
+    idx = list(meta)
     only = [a for a in sys.argv[1:] if not a.startswith("C")]
     checks = [a for a in sys.argv[1:] if a.startswith("C")] or ALL
     if only:
         idx = [n for n in idx if any(o in n for o in only)]
     bad = 0
     with cf.ThreadPoolExecutor(max_workers=3) as ex:
-        for name, suite, res in ex.map(lambda n: one(n, checks), idx):
+        for name, suite, res in ex.map(lambda n: one(n, [c for c in checks if c not in meta[n].get("exclude", [])]), idx):
             alarms = {c: r for c, r in res.items() if r[0] != 0}
             print("%-36s suite=[%s] alarms=%s" % (name, suite, alarms if alarms else "none"), flush=True)
             bad += bool(alarms)
